@@ -83,7 +83,14 @@ MIN_COUNTERS = {
               "space_oracle_evaluations": 650, "mask_roundtrip_checked": 650, "idf_missing_coupling_refused": 180,
               "mdf_idf_points_compared": 600, "mdf_disciplinaryopt_points_compared": 190,
               "optimum_oracle_evaluations": 75, "optimum_MDF": 24, "optimum_IDF": 45, "optimum_DisciplinaryOpt": 4},
-    "thorough": {},
+    "thorough": {"value_oracle_evaluations": 73000, "value_MDF": 21500, "value_IDF": 43000,
+                 "value_DisciplinaryOpt": 7500, "derivative_oracle_evaluations": 72000, "derivative_MDF": 21000,
+                 "derivative_IDF": 43000, "derivative_DisciplinaryOpt": 7500, "consistency_oracle_evaluations": 20000,
+                 "consistency_jacobian_vs_value_checked": 14000, "off_equilibrium_oracle_evaluations": 13500,
+                 "space_oracle_evaluations": 11000, "mask_roundtrip_checked": 11000,
+                 "idf_missing_coupling_refused": 3000, "mdf_idf_points_compared": 10000,
+                 "mdf_disciplinaryopt_points_compared": 3500, "optimum_oracle_evaluations": 740, "optimum_MDF": 225,
+                 "optimum_IDF": 435, "optimum_DisciplinaryOpt": 60},
 }
 SHARD_TIMEOUT = {"quick": 400, "thorough": 2400}
 
